@@ -9,14 +9,14 @@ USES_FLOATS = True
 NEEDS_RELEASE = False
 ASSUMPTIONS = [
     "theorems are about model/FrameQueue.v (acknowledge_group on the whole frame-queue + sender state); the effect of the two window-base fields of a replayed ack frame (stale by construction) is covered by the twin-run oracle, not by a theorem",
-    "the tie is the twin/tx/hostile correspondence streams (forged groups, duplicated and delayed genuine ack frames)",
+    "the tie is the twin/tx/hostile/mixack correspondence streams (forged groups, duplicated and delayed genuine ack frames; mixack: fresh groups that also name frames acknowledged earlier, in both nonce parities - correspondence only: such a group is a new acknowledgement, it may legitimately be refused when it spans a forgotten frame and it carries the rate-limited flags of every frame in its span, so no twin verdict is drawn from it)",
 ]
 THEOREM_STATEMENTS = ["C15_replay_identity: forall q s ack rtt, all_claimed_acked q (ag_base ack) (ag_bits ack) 0 (bitfield_size (ag_bits ack)) -> fq_acknowledge_group q s ack rtt = Ok (q, s)"]
 
 
 def streams(seed, tier):
-    return _hc.build_streams(["twin", "tx", "hostile"], seed, tier, 0.6)
+    return _hc.build_streams(["twin", "tx", "hostile", "mixack"], seed, tier, 0.6)
 
 
 def oracle(name, ops, out):
-    return _hc.run_oracles({"twin": [twin_oracle, crash_oracle], "hostile": [crash_oracle, unsent_ack_oracle]}, name, ops, out)
+    return _hc.run_oracles({"twin": [twin_oracle, crash_oracle], "hostile": [crash_oracle, unsent_ack_oracle], "mixack": [crash_oracle]}, name, ops, out)
